@@ -226,30 +226,32 @@ pub fn sort_cmp(a: &Val, b: &Val, descending: bool, nulls_first: bool) -> Orderi
     }
 }
 
+// Short (≤ 12 bytes, inlined in view arrays) and long (> 12 bytes, buffer-backed) values that
+// share prefixes of 4+ bytes, so that view comparisons have to look past the 4-byte prefix.
 const STR_POOL: [&str; 10] = [
     "",
     "a",
-    "b",
-    "ab",
-    "A",
+    "item",
+    "item-1",
+    "item-10-of-the-long-kind",
     "é",
-    "aa",
-    "a-very-long-string-over-12-bytes",
-    "a-very-long-string-over-12-bytes!",
+    "item-2",
+    "item-1-of-the-long-kind!",
+    "item-10-of-the-long-kinds",
     "\u{10FFFF}z",
 ];
 
 const BIN_POOL: [&[u8]; 10] = [
     b"",
     b"a",
-    b"b",
-    b"ab",
+    b"item",
+    b"item-1",
+    b"item-10-of-the-long-kind",
     b"\x00",
-    b"\x00\x00",
-    b"aa",
+    b"item-2",
     b"\xff",
     b"\xff\xfe-a-very-long-binary-over-12-bytes",
-    b"\xff\xfe-a-very-long-binary-over-12-bytes\x00",
+    b"item-10-of-the-long-kinds",
 ];
 
 const F_POOL: [f64; 10] = [1.0, -1.0, 1.5, -2.5, 0.25, 1024.0, -1024.5, 0.0, -0.0, f64::NAN];
